@@ -54,24 +54,24 @@ theorem shift_operand (b : Arr) (n lo : Nat) (hb : WFo b n) :
 /-- **C07.** `substitute` never panics (below the `u16` limit) and computes the composition. -/
 theorem substitute_spec (f g : Arr) (n x : Nat) (hf : WFo f n) (hg : WFo g n) (hn : n + 1 < 65536) :
     ∃ r, substitute f x g = .ok r ∧ WFo r n ∧
-      ∀ v, evalArr r v = evalArr f (upd v x (evalArr g v)) := by
+      (∀ v, evalArr r v = evalArr f (upd v x (evalArr g v))) ∧
+      (x ∈ supportSet f → 2 ≤ r.size → Red r n) := by
   have hnf : numVars f = n := numVars_of_wf hf
   have hng : numVars g = n := numVars_of_wf hg
-  by_cases hxf : x ∈ supportSet f
-  swap
+  by_cases hxf : x ∉ supportSet f
   · -- the variable does not occur: `self.clone()`
-    refine ⟨f, ?_, hf, fun v => (evalArr_upd_of_not_mem f x hxf v _).symm⟩
+    refine ⟨f, ?_, hf, fun v => (evalArr_upd_of_not_mem f x hxf v _).symm, fun h => absurd h hxf⟩
     have : (supportSet f).contains x = false := by simpa using hxf
     simp only [substitute, this, Bool.not_false, if_true]
+  have hxf : x ∈ supportSet f := Decidable.not_not.mp hxf
   have hx : x < n := supportSet_lt hf x hxf
   have hcf : (supportSet f).contains x = true := by simpa using hxf
-  by_cases hxg : x ∈ supportSet g
-  swap
+  by_cases hxg : x ∉ supportSet g
   · -- safe path
     have hcg : (supportSet g).contains x = false := by simpa using hxg
     obtain ⟨hiw, hiden⟩ := iff_var_spec g n x hg hx
-    obtain ⟨hw, _, hden⟩ := exists_and_spec f _ n x hf hiw hx
-    refine ⟨_, ?_, hw, ?_⟩
+    obtain ⟨hw, _, hred, hden⟩ := exists_and_spec f _ n x hf hiw hx
+    refine ⟨_, ?_, hw, ?_, fun _ => hred⟩
     · simp only [substitute, hcf, hcg, Bool.not_true, Bool.not_false, Bool.false_eq_true, if_false, if_true,
         binaryOpWithExistsO, hnf, numVars_of_wf hiw, ne_eq, not_true_eq_false]
     · intro v
@@ -81,16 +81,17 @@ theorem substitute_spec (f g : Arr) (n x : Nat) (hf : WFo f n) (hg : WFo g n) (h
       rw [e, e]
       exact subst_bool (fun b => evalArr f (upd v x b)) (evalArr g v)
   -- clash path
+  have hxg : x ∈ supportSet g := Decidable.not_not.mp hxg
   have hcg : (supportSet g).contains x = true := by simpa using hxg
   obtain ⟨ef1, ef2, hf2, dfden⟩ := shift_operand f n x hf
   obtain ⟨eg1, eg2, hg2, dgden⟩ := shift_operand g n (x + 1) hg
   obtain ⟨hiw, hiden⟩ := iff_var_spec _ (n + 1) (x + 1) hg2 (by omega)
-  obtain ⟨hsw, hsno, hsden⟩ := exists_and_spec _ _ (n + 1) (x + 1) hf2 hiw (by omega)
+  obtain ⟨hsw, hsno, hsred, hsden⟩ := exists_and_spec _ _ (n + 1) (x + 1) hf2 hiw (by omega)
   -- names for the intermediate diagrams
-  generalize hF2 : mapVars (applyMap (shiftUp x n)) (setTerm (n + 1) f) = F2 at ef2 hf2 dfden hiw hiden hsw hsno hsden
-  generalize hG2 : mapVars (applyMap (shiftUp (x + 1) n)) (setTerm (n + 1) g) = G2 at eg2 hg2 dgden hiw hiden hsw hsno hsden
-  generalize hI : applyWithFlip (mkVar (n + 1) (x + 1)) G2 Gen.iff_ none none none = I at hiw hiden hsw hsno hsden
-  generalize hS : binaryOpWithExists F2 I Gen.and_ [x + 1] = S at hsw hsno hsden
+  generalize hF2 : mapVars (applyMap (shiftUp x n)) (setTerm (n + 1) f) = F2 at ef2 hf2 dfden hiw hiden hsw hsno hsred hsden
+  generalize hG2 : mapVars (applyMap (shiftUp (x + 1) n)) (setTerm (n + 1) g) = G2 at eg2 hg2 dgden hiw hiden hsw hsno hsred hsden
+  generalize hI : applyWithFlip (mkVar (n + 1) (x + 1)) G2 Gen.iff_ none none none = I at hiw hiden hsw hsno hsred hsden
+  generalize hS : binaryOpWithExists F2 I Gen.and_ [x + 1] = S at hsw hsno hsred hsden
   have hnS : numVars S = n + 1 := numVars_of_wf hsw
   have hsS := supportSet_lt hsw
   -- reverse renaming
@@ -117,7 +118,7 @@ theorem substitute_spec (f g : Arr) (n x : Nat) (hf : WFo f n) (hg : WFo g n) (h
     have : z ≠ x + 1 := fun h => hsno (h ▸ hz)
     rw [applyMap_shiftDown]; split <;> omega
   obtain ⟨e9, k9⟩ := (set_num_vars_safe S1 n hS1').1 hlt1
-  refine ⟨setTerm n S1, ?_, k9.valid, ?_⟩
+  refine ⟨setTerm n S1, ?_, k9.valid, ?_, ?_⟩
   · have hnF2 : numVars F2 = n + 1 := numVars_of_wf hf2
     have hnI : numVars I = n + 1 := numVars_of_wf hiw
     have h1 : ¬ 65536 ≤ n + 1 := by omega
@@ -139,9 +140,8 @@ theorem substitute_spec (f g : Arr) (n x : Nat) (hf : WFo f n) (hg : WFo g n) (h
       · subst h1; simp [hy]
       · by_cases h2 : x ≤ y
         · have c1 : x ≤ y ∧ y < n := ⟨h2, hy⟩
-          have c2 : ¬ y + 1 = x + 1 := by omega
           have c3 : x + 2 ≤ y + 1 ∧ y + 1 ≤ n := by omega
-          simp [c1, c2, c3, h1]
+          simp [c1, c3, h1]
         · have c1 : ¬ (x ≤ y ∧ y < n) := by omega
           have c2 : ¬ y = x + 1 := by omega
           have c3 : ¬ (x + 2 ≤ y ∧ y ≤ n) := by omega
@@ -154,7 +154,7 @@ theorem substitute_spec (f g : Arr) (n x : Nat) (hf : WFo f n) (hg : WFo g n) (h
       simp only [upd, applyMap_shiftUp, applyMap_shiftDown]
       by_cases h2 : x + 1 ≤ y
       · have c1 : x + 1 ≤ y ∧ y < n := ⟨h2, hy⟩
-        have c2 : ¬ y + 1 = x + 1 := by omega
+        have c2 : ¬ y = x := by omega
         have c3 : x + 2 ≤ y + 1 ∧ y + 1 ≤ n := by omega
         simp [c1, c2, c3]
       · have c1 : ¬ (x + 1 ≤ y ∧ y < n) := by omega
@@ -166,6 +166,35 @@ theorem substitute_spec (f g : Arr) (n x : Nat) (hf : WFo f n) (hg : WFo g n) (h
       intro b; simp [upd]
     rw [e, e]
     exact subst_bool (fun b => evalArr f (upd v x b)) (evalArr g v)
+  · intro _ h2
+    rw [size_setTerm, ← hS1, size_mapVars] at h2
+    apply k9.red
+    rw [hnS1]
+    apply kr.red
+    rw [hnS]
+    exact hsred h2
+
+/-- on the safe path (`x` occurs in `f` but not in `g`) the result is exactly the canonical array of the
+    composition -/
+theorem substitute_safe_canonical (f g : Arr) (n x : Nat) (hf : WFo f n) (hg : WFo g n)
+    (hxf : x ∈ supportSet f) (hxg : x ∉ supportSet g) :
+    substitute f x g = .ok (canon n (fun v => evalArr f (upd v x (evalArr g v)))) := by
+  have hnf : numVars f = n := numVars_of_wf hf
+  have hx : x < n := supportSet_lt hf x hxf
+  have hcf : (supportSet f).contains x = true := by simpa using hxf
+  have hcg : (supportSet g).contains x = false := by simpa using hxg
+  obtain ⟨hiw, hiden⟩ := iff_var_spec g n x hg hx
+  have hc := exists_and_canon f _ n x hf hiw hx
+  simp only [substitute, hcf, hcg, Bool.not_true, Bool.not_false, Bool.false_eq_true, if_false, if_true,
+    binaryOpWithExistsO, hnf, numVars_of_wf hiw, ne_eq, not_true_eq_false]
+  rw [hc]
+  congr 1
+  apply canon_congr
+  intro v
+  rw [hiden, hiden, evalArr_upd_of_not_mem g x hxg, evalArr_upd_of_not_mem g x hxg]
+  have e : ∀ b, upd v x b x = b := by intro b; simp [upd]
+  rw [e, e]
+  exact subst_bool (fun b => evalArr f (upd v x b)) (evalArr g v)
 
 /-! ## Non-vacuity -/
 
@@ -179,10 +208,16 @@ theorem exG_wf : WFo exG 3 := wfoB_sound (by decide)
 /-- the hypotheses of `substitute_spec` hold for the clash-path operands of the fixed defect, and the
     function it pins down there is `(x0 ∨ x1) ∧ ¬x2` -/
 example : ∃ r, substitute exF 0 exG = .ok r ∧ WFo r 3 ∧
-    ∀ v, evalArr r v = evalArr exF (upd v 0 (evalArr exG v)) :=
+    (∀ v, evalArr r v = evalArr exF (upd v 0 (evalArr exG v))) ∧ (0 ∈ supportSet exF → 2 ≤ r.size → Red r 3) :=
   substitute_spec exF exG 3 0 exF_wf exG_wf (by omega)
 example : 0 ∈ supportSet exF ∧ 0 ∈ supportSet exG := by decide
 example : (List.range 8).map (fun i => evalArr exF (upd (valOfIndex 3 i) 0 (evalArr exG (valOfIndex 3 i)))) =
-    [false, false, true, false, false, false, true, false] := by decide
+    [false, false, true, false, true, false, true, false] := by decide
+
+/-- safe path: `g = x1` does not mention `x0` -/
+def exG1 : Arr := #[⟨3, 0, 0⟩, ⟨3, 1, 1⟩, ⟨1, 0, 1⟩]
+theorem exG1_wf : WFo exG1 3 := wfoB_sound (by decide)
+example : substitute exF 0 exG1 = .ok (canon 3 (fun v => evalArr exF (upd v 0 (evalArr exG1 v)))) :=
+  substitute_safe_canonical exF exG1 3 0 exF_wf exG1_wf (by decide) (by decide)
 
 end B.Props.C07
